@@ -4,7 +4,7 @@ From PyUbx Require Import Base Bytes Fletcher Frame Types Strs Walk Consts Table
    `translated` lists the functions the translator could handle on this run; for a function that is not in it the
    statement is empty and the tie is the correspondence check alone (the harness reports which). *)
 From Coq Require Import ZArith List String.
-From PyUbx Require Import Strs PyMini PySrc Src_common Src_selectors Src_getdict.
+From PyUbx Require Import Strs PyMini PySrc Src_common Src_selectors Src_getdict Src_identity.
 
 (* every row of VARIANTS: the source's selector function, called the way _get_dict calls it (with (msg, mode) for
    class 0x13, keywords only otherwise; KeyError turned into UBXMessageError), returns for EVERY keyword set /
@@ -34,3 +34,12 @@ Example C02_get_dict_premises :
   forallb (fun c => (c <? 128)%N) (bytes_of_string (identity [19%N] [0%N] (Some [1%N]))) = true /\
   forallb (fun c => (c <? 128)%N) (bytes_of_string (identity [119%N] [3%N] (Some []))) = true.
 Proof. vm_compute. repeat split. Qed.
+
+(* the identity property as the source has it now (class 0x13 keyed by the first payload byte, the fall-back name built
+   from the class name and two hex fields after `except KeyError`) is the model's identity, for every class, id and
+   payload (or none) *)
+Theorem C02_identity_from_source : mem_s "py_identity" translated = true ->
+  forall (p : option bytes) cls id,
+  py_identity (optg p) (gbytes cls) (gbytes id) = Ok (Tup [gstr (identity cls id p); Tup []; Tup []]).
+Proof. exact identity_agree. Qed.
+Print Assumptions C02_identity_from_source.
